@@ -80,7 +80,17 @@ func isStringy(b string) bool {
 }
 
 // V is the reference validator.
-func V(t tid, v *progen.Val) verdict {
+// relaxUser (VHard) makes V leave open what a user-defined file type does with a
+// value that is not a string: the validator only raises an alarm for it
+// ("for backwards compatibility we need to accept everything here"), which is
+// still not validating cleanly.  Every other departure from the declared
+// shape must be refused with an error, not merely an alarm (VHard).
+// VHard: reject means "must be refused with an error".
+func VHard(t tid, v *progen.Val) verdict { return vImpl(t, v, true) }
+
+func V(t tid, v *progen.Val) verdict { return vImpl(t, v, false) }
+
+func vImpl(t tid, v *progen.Val, relaxUser bool) verdict {
 	if v == nil || v.K == progen.VNull {
 		return accept
 	}
@@ -90,7 +100,7 @@ func V(t tid, v *progen.Val) verdict {
 		}
 		res := accept
 		for _, x := range v.A {
-			switch V(e, x) {
+			switch vImpl(e, x, relaxUser) {
 			case reject:
 				return reject
 			case unspec:
@@ -104,7 +114,7 @@ func V(t tid, v *progen.Val) verdict {
 		}
 		res := accept
 		for _, x := range v.O {
-			switch V(e, x) {
+			switch vImpl(e, x, relaxUser) {
 			case reject:
 				return reject
 			case unspec:
@@ -138,6 +148,9 @@ func V(t tid, v *progen.Val) verdict {
 		return accept
 	case isStringy(b):
 		if v.K != progen.VStr {
+			if relaxUser && b == "txt" {
+				return unspec
+			}
 			return reject
 		}
 		return accept
@@ -162,7 +175,7 @@ func V(t tid, v *progen.Val) verdict {
 			if !ok {
 				return reject // missing field
 			}
-			switch V(parseTid(f[1]), fv) {
+			switch vImpl(parseTid(f[1]), fv, relaxUser) {
 			case reject:
 				return reject
 			case unspec:
@@ -447,6 +460,8 @@ func checkValue(c Case) []ev.Finding {
 	case reject:
 		if clean {
 			report("invalid-accepted:"+kindOf(), "a value that is not of the declared shape validates cleanly")
+		} else if res.err == nil && VHard(t, v) == reject {
+			report("invalid-only-alarmed:"+kindOf(), fmt.Sprintf("a value that is not of the declared shape (and not merely a non-string for a user file type) is accepted with an alarm only: %q", res.alarms))
 		}
 	}
 	// filtering
